@@ -18,6 +18,7 @@ import (
 type ShareScenario struct {
 	Cfg     pipe.ShCfg
 	Scripts [][]string // per thread: "sub" "unsub" "connect" "disconnect" "next" "complete" "error"
+	Pre     int        // park mode: thread 1 performs its first Pre operations BEFORE thread 0 (the victim) starts
 }
 
 // ShareOnly: no connectable scenarios (drive-share -shareonly, for ShareImplTrace.tla)
@@ -38,6 +39,7 @@ func GenShare(r *rand.Rand) ShareScenario {
 		sc.Cfg.Rz = true
 		term := []string{"complete", "error"}[r.Intn(2)]
 		sc.Scripts = [][]string{{term}, {"sub", "unsub", "sub", "unsub"}}
+		sc.Pre = 1          // the subscriber is there before the source terminates
 		if r.Intn(2) == 0 { // ... with a termination that is KEPT (no reset), the case in which the flags matter
 			if term == "complete" {
 				sc.Cfg.Rc = false
@@ -145,6 +147,7 @@ func RunShare(lg *rec.Log, sc ShareScenario, seed int64, pk *rec.Parker) []rec.E
 	start := make(chan struct{})
 	startOthers := start
 	victimDone := make(chan struct{})
+	preDone := make(chan struct{})
 	if pk != nil {
 		startOthers = make(chan struct{})
 	}
@@ -170,8 +173,17 @@ func RunShare(lg *rec.Log, sc ShareScenario, seed int64, pk *rec.Parker) []rec.E
 			}
 			r := rand.New(rand.NewSource(seed*1000 + int64(p)))
 			var sub, connection ro.Subscription
-			<-st
+			if pk != nil && p == 0 && sc.Pre > 0 {
+				<-preDone
+			}
+			if !(pk != nil && p == 1 && sc.Pre > 0) {
+				<-st
+			}
 			for j, op := range sc.Scripts[p] {
+				if pk != nil && p == 1 && sc.Pre > 0 && j == sc.Pre {
+					close(preDone)
+					<-st
+				}
 				if pk == nil {
 					jitter(r)
 				}
